@@ -260,6 +260,7 @@ def run_path(h, params, prefix, timeout_ms, stats, viol_budget, selfcheck):
             out["unconfirmed"].append({"harness": h.name, "obligation": name, "tags": _json_safe(tags),
                                        "inputs": describe_values(c, tried[0]) if tried else None})
 
+    out["nontrivial"] += getattr(c, "extra_nontrivial", 0)
     # ---- sample + concrete-equivalence self check ----
     if selfcheck and c.observations:
         for n_, v_ in c.observations:
